@@ -1449,6 +1449,19 @@ class Interp:
                     k = self.concrete_int(self.eval(target.slice, fr), None)
                     h.fields['items'][k] = v
                     return
+                if h.kind == 'symlist' and h.fields.get('scalar') and not h.fields.get('pat') and not h.fields.get('union') \
+                        and not isinstance(target.slice, ast.Slice) and len(h.fields['comps']) == 1 and hasattr(v, 't'):
+                    # lst[i] = x on a symbolic list of scalars: a store into its element array (index must be in range)
+                    idx = self.as_int(self.eval(target.slice, fr), 'list index')
+                    n = h.fields['len'].t
+                    pos = z3.If(idx < 0, idx + n, idx)
+                    if not ctx.decide(z3.And(pos >= 0, pos < n), 'index-in-range'):
+                        ctx.oblige('safe.list-index-in-range', False, 'safe', 'line %s' % getattr(target, 'lineno', '?'))
+                        self.raise_exc('IndexError')
+                    (arr, ty), = h.fields['comps']
+                    if v.t.sort() == arr.sort().range():
+                        h.fields['comps'] = [(z3.Store(arr, pos, v.t), ty)]
+                        return
                 if h.kind == 'dict' and 'keys' in h.fields:
                     key = self.eval(target.slice, fr)
                     for i, kx in enumerate(h.fields['keys']):
